@@ -173,6 +173,12 @@ func (c *ctx) rangeSection(r *lib.RNG, out chan<- batch) {
 	res.SetExtra("trie2_range_verifier_variant", map[string]any{"retrieve_checks_node_hash": rcfg[0] == '1',
 		"value_node_ends_walk_early": rcfg[1] == '1', "hash_child_at_consumed_key_is_the_leaf": rcfg[2] == '1',
 		"zero_root_is_the_empty_trie": rcfg[3] == '1', "boundary_leaf_under_binary_node_is_unset": rcfg[4] == '1'})
+	if rcfg != "10111" {
+		res.Violate(lib.Violation{Sig: "range-verifier-variant-is-not-the-repaired-one:trie2=" + rcfg,
+			What: "the probes of trie2.VerifyRangeProof find variant " + rcfg + " (digits: node hashes checked, value node ends the walk early, hash child at a consumed key is the leaf, " +
+				"zero root = empty trie, boundary leaf under a binary node unset); the repaired code (997852f) is 10111: a fix has been undone",
+			Replay: map[string]any{"section": "probe", "trie2_range": rcfg}})
+	}
 	// the empty trie: root 0, GetRangeProof returns the empty node set; "no entry at or right of first" is true
 	for _, impl := range []string{"legacy", "trie2"} {
 		spec := TrieSpec{Impl: impl, Hash: "ped", Height: 251}
